@@ -70,6 +70,7 @@ pub struct Report {
     pub spec_error_count: u64,
     pub samples: Vec<Value>,
     pub per_op: std::collections::BTreeMap<String, u64>,
+    pub extra_text: Vec<String>,
     pub max_keep: usize,
 }
 
@@ -88,6 +89,7 @@ impl Report {
             spec_error_count: 0,
             samples: vec![],
             per_op: Default::default(),
+            extra_text: vec![],
             max_keep: 400,
         }
     }
